@@ -313,15 +313,9 @@ def run(ctx) -> None:
     v2p = prog.const("v2patterns", "PART_PATTERNS")
     v2f = prog.const("v2patterns", "PATTERN_PART_FIELDS")
     digits = relang.from_regex("[0-9]+")
-    int_fields = set()
-    for fqn in ("v2version.parse_field_values_to_cinfo", "v2version.parse_field_values_to_vinfo"):
-        f = prog.function(fqn)
-        for c in ast.walk(f.node):
-            if isinstance(c, ast.Call) and unparse(c.func) == "int" and c.args:
-                for sub in ast.walk(c.args[0]):
-                    if isinstance(sub, ast.Constant) and isinstance(sub.value, str) and sub.value in set(v2f.values()):
-                        int_fields.add(sub.value)
-    ctx.floor("R4", "fields converted with int() in the v2 parser", len(int_fields), 10)
+    vinfo_cls = prog.klass("version.V2VersionInfo")
+    int_fields = {f for f, ann in vinfo_cls.field_annotations.items() if unparse(ann) in ("int", "MaybeInt", "typ.Optional[int]", "Optional[int]")}
+    ctx.floor("R4", "int-typed fields of V2VersionInfo (their groups are passed to int())", len(int_fields), 10)
     for part, field in sorted(v2f.items()):
         if field in int_fields:
             w = relang.included(relang.from_regex(v2p[part]), digits)
